@@ -164,7 +164,9 @@ def pBlock : P Block := do
     let al ← pCounted pAlign
     let wl ← pCounted pNat
     let wr ← pCounted pNat
-    pure (.sub m p al wl wr)
+    let rl ← pCounted pNat
+    let rr ← pCounted pNat
+    pure (.sub m p al wl wr (rl.map (· != 0)) (rr.map (· != 0)))
 
 def showCellNums : Option Cell → String
   | none => " none"
@@ -214,15 +216,16 @@ def step (cfg : Cfg) (line : String) : String :=
     match runP (do
         let ps ← pCounted pPair; let m ← pNat; let p ← pNat
         let al ← pCounted pAlign; let wl ← pCounted pNat; let wr ← pCounted pNat
-        pure (ps, m, p, al, wl, wr)) rest with
-    | some (ps, m, p, al, wl, wr) =>
+        let rl ← pCounted pNat; let rr ← pCounted pNat
+        pure (ps, m, p, al, wl, wr, rl.map (· != 0), rr.map (· != 0))) rest with
+    | some (ps, m, p, al, wl, wr, rl, rr) =>
       match fmtData cfg with
       | .error e => panicLine e
       | .ok (fl, fr) =>
         match initializeHunk ps with
         | .error e => panicLine e
         | .ok (c0, minW) =>
-          match sbsBlock c0 m p al wl wr with
+          match sbsBlock c0 m p al wl wr rl rr with
           | .error e => panicLine e
           | .ok (c, rows) => "ok " ++ showSbsRows fl fr minW rows ++ s!" {c.left} {c.right}"
     | none => "ERR"
